@@ -962,6 +962,26 @@ func (c PrepareCallInstr) Execute(env *Zlisp) error {
 	return nil
 }
 
+// readArgLocations replaces each of the top nargs operands that names
+// a location (a dot-symbol, a selector) by the value found there.
+// Promises for lazy parameters are left alone.
+func (env *Zlisp) readArgLocations(nargs int) error {
+	args, err := env.datastack.PopExpressions(nargs)
+	if err != nil {
+		return err
+	}
+	for i := range args {
+		if _, isLazy := args[i].(*SexpLazyArg); isLazy {
+			continue
+		}
+		args[i], err = env.RValue(args[i])
+		if err != nil {
+			return err
+		}
+	}
+	return env.datastack.PushExpressions(args)
+}
+
 // execute reports whether c.sym is bound to the running function,
 // and if so gets the arguments on the stack ready for its body, as
 // CallFunction does for an ordinary call.
@@ -984,6 +1004,16 @@ func (c PrepareCallInstr) execute(env *Zlisp) (self bool, err error) {
 		}
 	}
 	f, isFun := funcobj.(*SexpFunction)
+	if isFun && !f.user {
+		// The arguments were pushed by compiled code, and a dot-symbol
+		// (h.x) pushes itself. A compiled function binds its parameters
+		// to values: read such locations now, in the scopes of the call,
+		// as PrepareCallExprArgs does for an ordinary call. (After the
+		// jump the scopes of this iteration are gone.)
+		if err := env.readArgLocations(c.nargs); err != nil {
+			return false, err
+		}
+	}
 	if !isFun || f.user || f != env.curfunc {
 		return false, nil
 	}
